@@ -228,6 +228,18 @@ def leftmostname(node):
     return rtn
 
 
+def sequence_target_names(targ):
+    """Yields the leftmost name of every element of a (possibly nested)
+    tuple or list assignment target, e.g. ``a, (b, *c) = ...``."""
+    for elt in targ.elts:
+        if isinstance(elt, Starred):
+            elt = elt.value
+        if isinstance(elt, Tuple | List):
+            yield from sequence_target_names(elt)
+        else:
+            yield leftmostname(elt)
+
+
 def get_lineno(node, default=0):
     """Gets the lineno of a node or returns the default."""
     return getattr(node, "lineno", default)
@@ -730,7 +742,7 @@ class CtxAwareTransformer(NodeTransformer):
         ups = set()
         for targ in node.targets:
             if isinstance(targ, Tuple | List):
-                ups.update(leftmostname(elt) for elt in targ.elts)
+                ups.update(sequence_target_names(targ))
             elif isinstance(targ, BinOp):
                 newnode = self.try_subproc_toks(node)
                 if newnode is node:
